@@ -68,4 +68,12 @@ Section Bounds.
     - apply andb_true_iff in E. destruct E as [_ E]. destruct (adjb_mem _ _ _ E) as [_ Hb]. rewrite Hb. lia.
     - destruct (memK K keqb b (vis K keqb kept s)); lia.
   Qed.
+
+  (* cum never exceeds the sum of all values: a cum percentage is at most 100% *)
+  Theorem cum_le_sum_lemma : forall div kept ss n, nonneg div ss ->
+    cum_spec K keqb div kept ss n <= sumf K (pick K div) ss.
+  Proof.
+    intros div kept ss n Hnn. unfold cum_spec. apply sumf_le. intros s Hs.
+    pose proof (Hnn s Hs) as H0. destruct (memK K keqb n (vis K keqb kept s)); lia.
+  Qed.
 End Bounds.
